@@ -186,9 +186,28 @@ def _account(run, c, res, spec_funcs, instantiate):
             verdict = "known" if verdict == "proved" else verdict
             continue
         if o["status"] == "unknown" or o["scaffold"]:
+            # A REFUTED invariant / variant comes with a counter-model of the loop state.  By itself that decides nothing (the state may be unreachable, or the sidecar
+            # invariant may just not fit a harmless rewrite), but it says where to look: the real function is run under its full run-time contract on the model's
+            # input and, for cursor-based functions, from every position of the model's text.  A clause failing on such a CONCRETE call is a replayed violation of that
+            # clause; nothing found leaves the function degraded as before.
+            found = None
+            if o["scaffold"] and o["status"] != "unknown" and instantiate is not None and "model" in o and not any(
+                    v.get("witness", {}).get("found_from_scaffolding") == q for v in run.violations):
+                try:
+                    found = _search_near(c, o, spec_funcs, instantiate)
+                except Exception:
+                    found = None
+            if found is not None:
+                clause_id, text, call_desc, detail = found
+                reported = run.violation(clause_id, text, {"model": o.get("model"), "call": call_desc, "replay": detail, "found_from_scaffolding": q,
+                                                           "refuted_scaffolding": o["id"]}, True,
+                                         extra={"obligation": o["id"], "solver": o["backend"], "solver_status": "sat (invariant refuted); concrete failing call found from the counter-model"})
+                if reported:
+                    verdict = "violated"
             cov["undecided"].append({"obligation": o["id"], "status": o["status"], "path": o["path"][-120:],
                                      "reason": o.get("reason", "scaffolding not inductive")})
-            verdict = "degraded"
+            if verdict != "violated":
+                verdict = "degraded"
             continue
         # refuted contract clause
         replayed, detail = False, None
@@ -209,6 +228,35 @@ def _account(run, c, res, spec_funcs, instantiate):
     if verdict == "degraded" and not any(d["function"] == q for d in cov["degraded_functions"]):
         cov["degraded_functions"].append({"function": q, "reason": "undischarged scaffolding / solver unknown"})
     return verdict
+
+
+def _search_near(c, o, spec_funcs, instantiate):
+    """concrete calls of the real function derived from a scaffolding counter-model: the model's own input, then the same text from every cursor position.
+    -> (clause id, clause text, call description, detail) of the first call on which a clause of the run-time contract fails, else None"""
+    mod, owner, func = V.resolve_target(c.target)
+    model = dict(o["model"])
+    variants = [model]
+    src = model.get("self._source")
+    if isinstance(src, str) and "self._position" in model:
+        # ... and the model's text continued by a few characters (a loop that runs too far shows only if something follows)
+        for text in [src] + [src + tail for tail in ("a", " a", "\na", "1", '"', "\\", "#a")]:
+            variants += [dict(model, **{"self._source": text, "self._len": len(text), "self._position": k}) for k in range(0, min(len(text), 64) + 1)]
+    for m in variants:
+        call = instantiate(c, m, o.get("case"))
+        if call is None:
+            continue
+        args, kwargs = call
+        ck = rtc.Checker(c, spec_funcs, func)
+        try:
+            outcome, fails = ck.call(func, args, kwargs)
+        except Exception:
+            continue
+        if outcome is None or not fails:
+            continue
+        f = fails[0]
+        desc = {k: (v if isinstance(v, (int, str, bool, float, type(None))) else repr(v)) for k, v in m.items() if k.startswith("self.") or not k.startswith("_")}
+        return f.clause_id, f.text, desc, {"outcome": (outcome[0], repr(outcome[1])[:200]), "failed_clauses": [x.clause_id for x in fails]}
+    return None
 
 
 def _replay(c, o, spec_funcs, instantiate):
